@@ -380,4 +380,4 @@ package openapi3
 // value in request/response mode; it never writes the document - C15 scan)
 //@ func (*Schema).VisitJSON
 //@   modifies *
-//@   preserves all(openapi3)
+//@   preserves all(openapi3), openapi3filter.ResponseValidationInput.Body
